@@ -788,7 +788,8 @@ namespace riddle
                     error("expected ';'..");
                 return new_assignment_statement(is, i, e);
             }
-            case PLUS_ID: // an expression..
+            case LPAREN_ID: // an expression (starting with a function call)..
+            case PLUS_ID:
             case MINUS_ID:
             case STAR_ID:
             case SLASH_ID:
@@ -811,7 +812,7 @@ namespace riddle
                 return new_expression_statement(e);
             }
             default:
-                error("expected either '=' or an identifier..");
+                error("expected either '=' or '(' or an operator or an identifier..");
                 return nullptr;
             }
         }
@@ -1056,14 +1057,11 @@ namespace riddle
                     error("expected identifier..");
                 is.emplace_back(*static_cast<id_token *>(tks[pos - 2]));
             }
-            if (match(LPAREN_ID))
+            if (match(LPAREN_ID)) // a function call..
             {
-                tk = next();
                 id_token fn = is.back();
                 is.pop_back();
                 std::vector<const expression *> xprs;
-                if (!match(LPAREN_ID))
-                    error("expected '('..");
 
                 if (!match(RPAREN_ID))
                 {
